@@ -112,6 +112,10 @@ def _kwargs(ptype, cfg):
             kw["regex"] = v.encode()
         elif k == "set_hook":
             kw["set_hook"] = _hook
+        elif k in ("edits", "objects_style"):
+            continue
+        elif k == "objects" and cfg.get("objects_style") == "dict":
+            kw["objects"] = {"k%d" % i: o for i, o in enumerate(v)}
         else:
             kw[k] = v
     return kw
@@ -222,6 +226,69 @@ _anyv = st.one_of(
 _val = st.recursive(_anyv, lambda ch: st.one_of(st.lists(ch, max_size=3), st.lists(ch, max_size=3).map(tuple)), max_leaves=4)
 
 
+_NEW_OBJS = [7, "z", 2.5, [9], 1, "a"]
+
+
+def _walk_edits(objs, edits, style, proxy_of=None):
+    """List model of Selector.objects under index/key edits; returns (objects afterwards, objects added or removed).
+    Keys of a dict declaration are k0, k1, ... in order. With `proxy_of` (returning a fresh `.objects`) the same edits are
+    also made through the public ListProxy API. Key edits stop once a dict-declared Selector was edited by position
+    (mixing the two styles is outside what this check models: the name table is stale then)."""
+    objs = list(objs)
+    keys = ["k%d" % i for i in range(len(objs))] if style == "dict" else None
+    touched = []
+    mixed = False
+    for e in edits:
+        op = e[0]
+        if op == "set":
+            if e[1] < len(objs):
+                new = _decv(e[2])
+                touched += [objs[e[1]], new]
+                objs[e[1]] = new
+                mixed = True
+                if proxy_of:
+                    proxy_of()[e[1]] = new
+        elif op == "append":
+            new = _decv(e[1])
+            touched.append(new)
+            objs.append(new)
+            mixed = True
+            if keys is not None:
+                keys.append(None)
+            if proxy_of:
+                proxy_of().append(new)
+        elif op == "insert":
+            new = _decv(e[2])
+            touched.append(new)
+            i = min(e[1], len(objs))
+            objs.insert(i, new)
+            mixed = True
+            if keys is not None:
+                keys.insert(i, None)
+            if proxy_of:
+                proxy_of().insert(i, new)
+        elif op == "pop":
+            if e[1] < len(objs):
+                touched.append(objs.pop(e[1]))
+                if keys is not None:
+                    keys.pop(e[1])
+                if proxy_of:
+                    proxy_of().pop(e[1])
+        elif op == "setkey" and keys is not None and not mixed:
+            new = _decv(e[2])
+            if e[1] in keys:
+                i = keys.index(e[1])
+                touched += [objs[i], new]
+                objs[i] = new
+            else:
+                touched.append(new)
+                objs.append(new)
+                keys.append(e[1])
+            if proxy_of:
+                proxy_of()[e[1]] = new
+    return objs, touched
+
+
 @st.composite
 def _case(draw):
     ptype = draw(st.sampled_from(["Number", "Integer", "Boolean", "String", "Bytes", "Tuple", "NumericTuple", "XYCoordinates",
@@ -280,6 +347,22 @@ def _case(draw):
         if cos is not None:
             cfg["check_on_set"] = cos
         extra = list(objs) + [1, 1.0, True, "a", 0, False, [1, 2], (1, 2), "1", 3, D0, dt.datetime(2020, 1, 1)]
+        # the objects may be declared as a dict and may be edited after the declaration: the constraint in force
+        # at the moment of the assignment is membership in the *current* objects
+        if draw(st.integers(0, 2)) == 0:
+            cfg["objects_style"] = "dict"
+        if draw(st.integers(0, 1)) == 0:
+            edits = draw(st.lists(st.one_of(
+                st.tuples(st.just("set"), st.integers(0, 2), st.sampled_from(_NEW_OBJS)),
+                st.tuples(st.just("append"), st.sampled_from(_NEW_OBJS)),
+                st.tuples(st.just("insert"), st.integers(0, 2), st.sampled_from(_NEW_OBJS)),
+                st.tuples(st.just("pop"), st.integers(0, 2)),
+                st.tuples(st.just("setkey"), st.sampled_from(["k0", "k1", "knew"]), st.sampled_from(_NEW_OBJS)),
+            ), min_size=1, max_size=3))
+            cfg["edits"] = [[e[0]] + [_enc(x) if i == len(e) - 2 and e[0] != "pop" else x for i, x in enumerate(e[1:])]
+                            for e in edits]
+            after, touched = _walk_edits(objs, cfg["edits"], cfg.get("objects_style", "list"))
+            extra = touched + touched + extra
         if ptype == "ListSelector":
             extra = [[o] for o in extra] + [list(objs), [], objs[0], tuple(objs)]
     elif ptype == "ClassSelector":
@@ -405,6 +488,18 @@ def execute(case):
     PT = PTYPES[ptype]
     kw = _kwargs(ptype, cfg)
     res.label("type:" + ptype)
+    want_decl = specs.verdict(ptype, cfg, v)
+    edits = cfg.get("edits")
+    cfg_decl = cfg
+    if edits:
+        # the objects are edited after the declaration: the later routes are judged against the objects then in force
+        after, _ = _walk_edits(cfg["objects"], edits, cfg.get("objects_style", "list"))
+        cfg = dict(cfg, objects=after, check_on_set=cfg.get("check_on_set", bool(cfg["objects"])))
+        res.label("selector:objects_edited_after_declaration")
+        if cfg_decl.get("objects_style") == "dict":
+            res.label("selector:dict_declared_then_edited")
+    elif cfg.get("objects_style") == "dict":
+        res.label("selector:dict_declared")
     want = specs.verdict(ptype, cfg, v)
     hooked = "set_hook" in cfg
     if hooked:
@@ -413,9 +508,9 @@ def execute(case):
         res.label("set_hook")
     else:
         want_set = want
-    d0 = _valid_default(ptype, cfg)
+    d0 = _valid_default(ptype, cfg_decl)
     if d0 is None and not (cfg.get("allow_None") and ptype != "Parameter"):
-        if specs.verdict(ptype, cfg, None) is not True:
+        if specs.verdict(ptype, cfg_decl, None) is not True:
             res.dontcare += 1
             return res
     desc = f"{ptype}({', '.join(f'{k}={x!r}' for k, x in kw.items())}) value {v!r}"
@@ -445,7 +540,7 @@ def execute(case):
                 res.fail("C01.readback_after_reject", f"{desc} via {route}: rejected but the value changed from {prev!r} to {got!r}")
 
     # ---- route: declaration default -----------------------------------------
-    exp_default = True if v is None and ptype not in ("Selector", "ListSelector") else want
+    exp_default = True if v is None and ptype not in ("Selector", "ListSelector") else want_decl
     if ptype in ("Selector", "ListSelector") and v is None:
         exp_default = True          # a None default is always allowed (empty default)
     if ptype in ("Tuple", "NumericTuple", "XYCoordinates") and isinstance(v, tuple) and v:
@@ -460,7 +555,10 @@ def execute(case):
 
     # ---- the other routes need a class with a valid default --------------------
     def mk():
-        return type("P", (param.Parameterized,), {"x": PT(default=d0, **kw)})
+        P = type("P", (param.Parameterized,), {"x": PT(default=d0, **kw)})
+        if edits:
+            _walk_edits(cfg_decl["objects"], edits, cfg_decl.get("objects_style", "list"), lambda: P.param.x.objects)
+        return P
     try:
         mk()
     except Exception as e:  # noqa: BLE001
